@@ -11,8 +11,11 @@
 (*                  series sits at each position, unchanged);                                      *)
 (*   op "unstitch": df_unslice(F, bounds) on a frame F that df_slice produced; out.series are the *)
 (*                  recovered series in the order of their bounds out.keys.                       *)
+(*   op "step"    : one step of a session on a world of caller-owned objects (SliceSess.tla):      *)
+(*                  o.w = the world as read before the step, o.a = the step, o.x = [w |-> the      *)
+(*                  world as read afterwards, out |-> what the call returned].                    *)
 (* Timestamps and bounds are integers on the time grid the driver chose, 0 = None.               *)
-EXTENDS Slice, Batch
+EXTENDS SliceSess, Batch
 
 IsFrame(x) == x.kind = "val"
 FrameOf(x) == [rows |-> x.rows, cols |-> x.cols]
@@ -66,6 +69,7 @@ UnstitchVerdict(o) ==
 Verdict(o) == CASE o.op = "slice"    -> SliceVerdict(o)
                 [] o.op = "session"  -> SessionVerdict(o)
                 [] o.op = "unstitch" -> UnstitchVerdict(o)
+                [] o.op = "step"     -> StepVerdict(o.w, o.a, o.x)
                 [] OTHER -> "unknown_op"
 
 Init == BatchInit
